@@ -3120,11 +3120,16 @@ class Wallet(object):
 
         self._balance = sum([b['balance'] for b in balance_list if b['network'] == self.network.name])
 
-        # Bulk update database
+        # Bulk update database: only the balance of a key is updated. A key keeps its own account, also when it
+        # receives outputs of a transaction created from another account
+        key_balances = {}
         for kb in key_balance_list:
-            if kb['id'] in self._key_objects:
-                self._key_objects[kb['id']]._balance = kb['balance']
-        self.session.bulk_update_mappings(DbKey, key_balance_list)
+            key_balances[kb['id']] = key_balances.get(kb['id'], 0) + kb['balance']
+        for kb_id, kb_balance in key_balances.items():
+            if kb_id in self._key_objects:
+                self._key_objects[kb_id]._balance = kb_balance
+        self.session.bulk_update_mappings(DbKey, [{'id': kb_id, 'balance': kb_balance}
+                                                  for kb_id, kb_balance in key_balances.items()])
         # The bulk update bypasses key objects already loaded in this session: let them reload their balance
         for obj in list(self.session.identity_map.values()):
             if isinstance(obj, DbKey):
